@@ -106,6 +106,20 @@ CHECKS["C12"] = (
     "DESIGN.md 3 (C12)",
 )
 
+CHECKS["C13"] = (
+    "Coq proof (exhaustive case analysis + vm_compute over inputs and fault positions, for all k) about a skeleton regenerated from utils.py by a translator; dynamic fault enumeration on the implementation compared by Coq with the model",
+    "tools/py2v_tempfile.py turns tempfile_decorator.wrapper into a term of a 14-constructor command language (Model/TempFile.v gives its "
+    "semantics over a file-system state with a fault at the k-th faultable step). Theorems about the generated term, for every input kind and "
+    "every fault position: no temporary file remains, the user's file is untouched (bodies open read-only: extracted side condition), a fault "
+    "reaches the caller as that exception, no fault => the wrapped value is returned, wrong type => TypeError, state after = state before "
+    "(re-entrancy). Each run injects a unique exception into the real implementation at the k-th invocation of 10 internal callables for 3 entry "
+    "points and both input kinds and lets Coq compare observation and model (tf_check); exception identity, TMPDIR *.hdf5, user-file SHA-256 "
+    "and a follow-up call are checked directly.",
+    "Trusted: Coq kernel + vm_compute; translator (fail-closed); OS steps (create/close/unlink) do not fail; a worker killed by the OS is not "
+    "modelled; multi-process pools are exercised only in the thorough tier (partial: process scheduling is not modelled).",
+    "DESIGN.md 3 (C13)",
+)
+
 NOT_YET = {}
 
 
